@@ -90,7 +90,7 @@ class C02(AnswerCheck):
 
 class C04(HistCheck):
     pid = 'C04'
-    hist_kw = dict(unsat_bias=0.3, p_push=0.2, p_pop=0.18, p_check=0.25, ncmds=(12, 30), reassert=0.2, named=0.3,
+    hist_kw = dict(unsat_bias=0.35, p_push=0.2, p_pop=0.18, p_check=0.25, ncmds=(12, 34), reassert=0.2, named=0.3, reenter=0.5,
                    queries=('get-model', 'get-unsat-core', 'get-value', 'get-interpolants'), q_prob=0.3, defines=0.05)
     allow_nonincremental = False
     rule = ('push/pop histories, every check-sat compared with a fresh interpreter (same configuration vector) given exactly the R-stack '
